@@ -82,6 +82,14 @@ def _candidate_paths(rng, conn, small):
         for _ in range(12):
             out.append(_rand_walk(rng, conn, cs[int(rng.integers(len(cs)))], int(rng.integers(3, 8))))
         return out
+    # class H: the shortest paths on the larger mazes (each asked with both flags by the caller): single cells in the
+    # corners / just outside them, two-cell paths along a connection, through a wall, in place
+    corners = [(0, 0), (0, c - 1), (r - 1, 0), (r - 1, c - 1)]
+    out += [[a] for a in corners] + [[(-1, 0)], [(r, c - 1)], [(0, c)], [(r - 1, -1)]]
+    for a in corners + [cs[int(rng.integers(len(cs)))] for _ in range(3)]:
+        for b in [(a[0] + 1, a[1]), (a[0], a[1] + 1), (a[0] - 1, a[1]), (a[0], a[1] - 1)][int(rng.integers(2)) :: 2]:
+            out.append([a, b])
+        out.append([a, a])
     for k in range(36):
         w = _rand_walk(rng, conn, cs[int(rng.integers(len(cs)))], int(rng.integers(1, 30)))
         mode = k % 9
@@ -133,6 +141,15 @@ def _solutions(rng, conn, small):
     if small:
         return [p for s in cs for t in cs for p in mz.all_shortest(conn, s, t)]
     out = [[cs[int(rng.integers(len(cs)))]]]
+    # class H: one-cell solutions on a cell of the lowest and of the highest degree and in two corners; two-cell
+    # solutions in both directions (every option of the fork queries is asked for each of them)
+    by_deg = sorted(cs, key=lambda a: (len(mz.nbrs(conn, a)), a))
+    out += [[by_deg[0]], [by_deg[-1]], [(0, 0)], [(r - 1, c - 1)]]
+    for a in (by_deg[-1], by_deg[len(by_deg) // 2], (r - 1, c - 1)):
+        nb = mz.nbrs(conn, a)
+        if nb:
+            b = nb[int(rng.integers(len(nb)))]
+            out += [[a, b], [b, a]]
     for _ in range(5):
         s = cs[int(rng.integers(len(cs)))]
         comp = sorted(mz.bfs(conn, s))
@@ -143,11 +160,30 @@ def _solutions(rng, conn, small):
     return out
 
 
-def _gen_conn(rng, kind, r, c):
+def _nonsimple(rng, conn, small):
+    """walks that revisit cells (there and back, random walks retraced): SolvedMaze accepts any cell sequence, but the
+    statement's 'solutions' need not include them -> judged as Layer M (M:nonsimple_solution:...)"""
+    cs = mz.cells(*conn.shape[1:])
+    edges = [(a, b) for a in cs for b in mz.nbrs(conn, a)]
+    if not edges:
+        return []
+    out = [[a, b, a] for a, b in (edges if small and len(edges) <= 8 else [edges[int(rng.integers(len(edges)))] for _ in range(4)])]
+    for _ in range(3):
+        w = _rand_walk(rng, conn, edges[int(rng.integers(len(edges)))][0], int(rng.integers(3, 9)))
+        out.append(w + w[-2::-1][: int(rng.integers(1, len(w)))])
+    return out
+
+
+def _gen_conn(rng, kind, r, c, obj=False):
+    """-> connection array, or with obj=True the generator's own maze object (generation metadata present) / None"""
     from maze_dataset.generation import LatticeMazeGenerators as G
 
+    if obj and (not kind.startswith("dfs") or min(r, c) < 2):
+        return None
     if kind == "full":
         return mz.rand_conn(rng, r, c, 2.0)
+    if kind == "empty":
+        return np.zeros((2, r, c), dtype=bool)
     if kind.startswith("perc") or min(r, c) < 2:
         return mz.rand_conn(rng, r, c, float(rng.choice([0.15, 0.3, 0.5, 0.7, 0.9])))
     import random
@@ -155,16 +191,18 @@ def _gen_conn(rng, kind, r, c):
     np.random.seed(int(rng.integers(0, 2**31)))
     random.seed(int(rng.integers(0, 2**31)))
     if kind == "dfs":
-        return G.gen_dfs(np.array([r, c])).connection_list
-    if kind == "dfs_perc":
-        return G.gen_dfs_percolation(np.array([r, c]), p=float(rng.choice([0.1, 0.3]))).connection_list
-    if kind == "dfs_partial":
-        return G.gen_dfs(np.array([r, c]), accessible_cells=int(max(1, r * c // 2))).connection_list
-    raise ValueError(kind)
+        g = G.gen_dfs(np.array([r, c]))
+    elif kind == "dfs_perc":
+        g = G.gen_dfs_percolation(np.array([r, c]), p=float(rng.choice([0.1, 0.3])))
+    elif kind == "dfs_partial":
+        g = G.gen_dfs(np.array([r, c]), accessible_cells=int(max(1, r * c // 2)))
+    else:
+        raise ValueError(kind)
+    return g if obj else g.connection_list
 
 
 FORCED = [(15, 15), (15, 1), (1, 15), (15, 2), (2, 15), (14, 15), (15, 14), (15, 15), (1, 1), (10, 12), (12, 10), (13, 13)]
-KINDS = ["perc", "dfs", "dfs_perc", "perc", "dfs_partial", "perc", "full"]
+KINDS = ["perc", "dfs", "dfs_perc", "perc", "dfs_partial", "perc", "full", "perc", "dfs", "empty", "dfs_perc"]
 
 
 def _random_case(seed, k, maxn):
@@ -184,11 +222,16 @@ def _random_case(seed, k, maxn):
     else:
         r, c = int(rng.integers(2, maxn + 1)), int(rng.integers(2, maxn + 1))
     kind = KINDS[k % len(KINDS)]
+    gen = None
     try:
-        conn = _gen_conn(rng, kind, r, c)
+        if k % 3 == 1:  # class F: the generator's own object (generation metadata present) instead of a rebuilt maze
+            gen = _gen_conn(rng, kind, r, c, obj=True)
+        conn = _gen_conn(rng, kind, r, c) if gen is None else np.array(gen.connection_list)
+        if conn.shape != (2, r, c) or conn.dtype.kind != "b":
+            raise ValueError("generator output")
     except Exception:  # noqa: BLE001 - the generators are not C13's subject: fall back to plain percolation
-        kind, conn = "perc_fallback", mz.rand_conn(rng, r, c, 0.5)
-    return rng, r, c, kind, np.asarray(conn, dtype=bool)
+        kind, conn, gen = "perc_fallback", mz.rand_conn(rng, r, c, 0.5), None
+    return rng, r, c, kind, np.asarray(conn, dtype=bool), gen
 
 
 # ------------------------------------------------------------------ observation (real code)
@@ -239,17 +282,117 @@ def _scribble(x):
 VIEWS = ["nodes", "deg", "nb", "nc", "comp", "paths", "adj", "isconn", "sols"]
 
 
-def observe_maze(conn, rng, small, job, parity=0, m=None, order=None, scribble=False, light=False, extra_sols=(), extra_paths=()):
+# ---- classes E / G: every array argument is the caller's OWN mutable ndarray in one of several representations
+OVERWRITE = 101  # differs from every coordinate the driver ever passes (sides <= 90, out of bounds -2..92)
+
+
+def _own_coord(a, mode):
+    """one cell as the caller's own (2,) array: platform int / int8 / int16 / int32, contiguous or a strided view"""
+    mode %= 6
+    if mode == 0:
+        return np.array(a)
+    if mode == 1:
+        return np.array(a, dtype=np.int8)
+    if mode == 2:
+        return np.array([a[0], 55, a[1]])[::2]  # non-contiguous view
+    if mode == 3:
+        return np.array([[7, 7], [a[0], a[1]]], dtype=np.int32)[1]  # a row of a larger array
+    if mode == 4:
+        return np.array(a, dtype=np.int16)
+    return np.array([[a[0], 9], [a[1], 9]], dtype=np.int8)[:, 0]  # int8 column view
+
+
+def _own_cells(p, mode):
+    """a sequence of cells (candidate path / solution) as the caller's own (n, 2) array"""
+    mode %= 6
+    base = np.array(p, dtype=int).reshape(-1, 2)
+    if mode == 0:
+        return base.copy()
+    if mode == 1:
+        return base.astype(np.int8)
+    if mode == 2:
+        return np.asfortranarray(base.astype(np.int32))
+    if mode == 3:  # every second row of a larger array
+        big = np.full((2 * len(base), 2), 77, dtype=np.int64)
+        big[::2] = base
+        return big[::2]
+    if mode == 4:  # negative column stride
+        return np.ascontiguousarray(base[:, ::-1]).astype(np.int16)[:, ::-1]
+    big = np.full((len(base), 4), 66, dtype=np.int8)  # int8, every second column of a wider array
+    big[:, ::2] = base
+    return big[:, ::2]
+
+
+def _own_edges(batch, mode):
+    """a batch of cell pairs as the caller's own (n, 2, 2) array"""
+    mode %= 6
+    base = np.array(batch, dtype=int).reshape(-1, 2, 2)
+    if mode == 0:
+        return base.copy()
+    if mode == 1:
+        return base.astype(np.int8)
+    if mode == 2:
+        return np.asfortranarray(base)
+    if mode == 3:  # every second entry of a larger int8 array
+        big = np.full((2 * len(base), 2, 2), 44, dtype=np.int8)
+        big[::2] = base
+        return big[::2]
+    if mode == 4:  # axes stored in reverse order
+        return np.ascontiguousarray(base.astype(np.int32).transpose(2, 1, 0)).transpose(2, 1, 0)
+    return base.astype(np.int16)
+
+
+def _same(a, snap):
+    return a.shape == snap.shape and a.dtype == snap.dtype and bool(np.array_equal(a, snap))
+
+
+# the maze object under the views: built directly, from other array layouts, through the factories, as a subclass,
+# with / without generation metadata (class F / G).  "ctor" appears more often so that the plain form stays dense.
+PROVENANCE = ["ctor", "fortran", "ctor", "strided", "loaded", "ctor", "solved", "targeted", "from_lattice", "meta", "from_targeted"]
+
+
+def _build(conn, prov):
+    L, S, T = mz.LatticeMaze, mz.SolvedMaze, mz.TargetedLatticeMaze
+    r, c = (int(v) for v in conn.shape[1:])
+    meta = dict(func_name="hand_made", grid_shape=np.array([r, c]), fully_connected=False, visited_cells={(0, 0)})
+    if prov == "fortran":
+        return L(connection_list=np.asfortranarray(conn))
+    if prov == "strided":  # a view into a larger array whose other entries are all True
+        big = np.ones((2, 2 * r, 2 * c), dtype=bool)
+        big[:, ::2, ::2] = conn
+        return L(connection_list=big[:, ::2, ::2])
+    if prov == "loaded":
+        return L.load(L(connection_list=conn).serialize())
+    if prov == "solved":
+        return S(connection_list=conn, solution=np.array([[r - 1, c - 1]]))
+    if prov == "targeted":
+        return T(connection_list=conn, start_pos=np.array([0, 0]), end_pos=np.array([r - 1, c - 1]))
+    if prov == "from_lattice":
+        return S.from_lattice_maze(lattice_maze=L(connection_list=conn, generation_meta=meta), solution=[(0, 0)])
+    if prov == "meta":
+        return L(connection_list=conn, generation_meta=meta)
+    if prov == "from_targeted":
+        return S.from_targeted_lattice_maze(T(connection_list=conn, start_pos=np.array([r - 1, 0]), end_pos=np.array([r - 1, 0])), solution=[(r - 1, 0)])
+    return L(connection_list=conn)
+
+
+def observe_maze(conn, rng, small, job, parity=0, m=None, order=None, scribble=False, light=False, extra_sols=(), extra_paths=(), prov=None):
     """every library call goes through call()/mz.outcome: an exception or a malformed output of the code under
     test is an OUTCOME (listed in rec['err'], rejected by the oracle), never a harness failure.
     m = an existing maze object to query again (history); order = order of the views; scribble = overwrite every
-    returned array / list in place after logging it; light = fewer pairs / candidate paths."""
+    returned array / list in place after logging it; light = fewer pairs / candidate paths;
+    prov = how the maze object is built (default: PROVENANCE by parity).
+
+    Arguments (classes E / G): every cell, path, edge batch, adjacency list and solution handed to the library is
+    the caller's own mutable ndarray in a representation that rotates with the call index (_own_*).  After the call
+    it is compared with a snapshot (a difference is listed in rec['argmod'] -> Layer M, the statement does not
+    mention it) and then OVERWRITTEN before anything is read from the result (a result that shares memory with an
+    argument is then a wrong view -> plain clause).  The maze's connection structure is compared with the logged
+    one after every view (a query that edits the maze: 'argmod'; later views are judged against the logged graph)."""
     from maze_dataset.token_utils import is_connection
     from maze_dataset.utils import lattice_connection_array
 
-    r, c = (int(v) for v in conn.shape[1:])
-    cs = mz.cells(r, c)
-    err = []
+    err, argmod = [], []
 
     def call(view, fn, default=None):
         res, v = mz.outcome(fn)
@@ -259,16 +402,34 @@ def observe_maze(conn, rng, small, job, parity=0, m=None, order=None, scribble=F
             return default
         return v
 
-    def take(fn, conv):
-        raw = fn()
+    def take(fn, conv, args=(), view=""):
+        snap = [a.copy() for a in args]
+        raw = fn(*args)
+        for a, s0 in zip(args, snap):
+            if not _same(a, s0) and view not in argmod:
+                argmod.append(view)
+            if a.size and a.flags.writeable:
+                a[...] = OVERWRITE  # before the result is read
         out = conv(raw)
         if scribble:
             _scribble(raw)
         return out
 
-    rec = dict(kind="maze", job=job, R=r, C=c, conn=mz.raw(conn), nodes=[], deg=[], nb=[], nc=[], comp=[], paths=[], adj=[], rt=[], isconn=[], sols=[], err=err)
     if m is None:
-        m = call("LatticeMaze", lambda: mz.LatticeMaze(connection_list=conn))
+        prov = prov or PROVENANCE[parity % len(PROVENANCE)]
+        m = call("LatticeMaze", lambda: _build(conn, prov))
+        if m is not None and prov != "ctor":
+            # the connection structure of the OBJECT is the reference (what a factory did to it is not C13's subject)
+            got = mz.outcome(lambda: np.array(m.connection_list))[1]
+            if got is None or got.ndim != 3 or got.shape[0] != 2 or got.dtype.kind != "b" or 0 in got.shape:
+                err.append("LatticeMaze")
+                m = None
+            else:
+                conn = got
+    r, c = (int(v) for v in conn.shape[1:])
+    cs = mz.cells(r, c)
+    conn0 = np.array(conn, dtype=bool)  # snapshot of the logged structure
+    rec = dict(kind="maze", job=job, prov=prov or "given", R=r, C=c, conn=mz.raw(conn0), nodes=[], deg=[], nb=[], nc=[], comp=[], paths=[], adj=[], rt=[], isconn=[], isconn0=[], sols=[], sols_m=[], err=err, argmod=argmod)
     if m is None:
         return rec
 
@@ -280,7 +441,7 @@ def observe_maze(conn, rng, small, job, parity=0, m=None, order=None, scribble=F
 
     def v_nb():
         seq = cs if parity % 2 == 0 else cs[::-1]
-        rec["nb"] = [[list(a), call("get_coord_neighbors", lambda: take(lambda: m.get_coord_neighbors(np.array(a)), _cells_out), [])] for a in seq]
+        rec["nb"] = [[list(a), call("get_coord_neighbors", lambda: take(m.get_coord_neighbors, _cells_out, [_own_coord(a, parity + i)], "get_coord_neighbors"), [])] for i, a in enumerate(seq)]
 
     def v_nc():
         prs = _pairs(rng, r, c)
@@ -288,13 +449,20 @@ def observe_maze(conn, rng, small, job, parity=0, m=None, order=None, scribble=F
             prs = prs[::3]
         if parity % 2:
             prs = prs[::-1]
-        rec["nc"] = [[a[0], a[1], b[0], b[1], call("nodes_connected", lambda: int(bool(m.nodes_connected(np.array(a), np.array(b)))), 2)] for a, b in prs]
+        out = []
+        for i, (a, b) in enumerate(prs):
+            xa = _own_coord(a, parity + i)
+            # equal cells: alternately ONE array object for both arguments
+            xb = xa if (a == b and i % 2 == 0) else _own_coord(b, parity + i // 6)
+            args = [xa] if xb is xa else [xa, xb]
+            out.append([a[0], a[1], b[0], b[1], call("nodes_connected", lambda: take(lambda *_: m.nodes_connected(xa, xb), lambda v: int(bool(v)), args, "nodes_connected"), 2)])
+        rec["nc"] = out
 
     def v_comp():
         seeds = cs if r * c <= 16 else sorted({(0, 0), (0, c - 1), (r - 1, 0), (r - 1, c - 1)} | {cs[int(rng.integers(len(cs)))] for _ in range(5)})
         if light:
             seeds = seeds[:: max(1, len(seeds) // 4)]
-        rec["comp"] = [[list(a), call("gen_connected_component_from", lambda: take(lambda: m.gen_connected_component_from(np.array(a)), _cells_out), [])] for a in seeds]
+        rec["comp"] = [[list(a), call("gen_connected_component_from", lambda: take(m.gen_connected_component_from, _cells_out, [_own_coord(a, parity + i + 1)], "gen_connected_component_from"), [])] for i, a in enumerate(seeds)]
 
     def v_paths():
         paths = []
@@ -302,29 +470,49 @@ def observe_maze(conn, rng, small, job, parity=0, m=None, order=None, scribble=F
         if light:
             cand = cand[::5]
         cand = cand + [list(p) for p in extra_paths]
+
+        def ask(p, eiv, i, how):
+            arr = _own_cells(p, parity + i)
+            fn = [lambda x: m.is_valid_path(x, empty_is_valid=eiv), lambda x: m.is_valid_path(x, eiv)][how % 2] if eiv is not None else (lambda x: m.is_valid_path(x))
+            res, v = mz.outcome(lambda: take(fn, lambda y: int(bool(y)), [arr], "is_valid_path"))
+            paths.append([[_cl(x) for x in p], int(bool(eiv)), v if res == "ok" else 2])
+
         for i, p in enumerate(cand):
-            arr = np.array(p, dtype=int).reshape(-1, 2)
-            for eiv in ([False, True] if len(p) == 0 or i % 16 == 0 else [bool(i % 2)]):
-                res, v = mz.outcome(lambda: int(bool(m.is_valid_path(arr, empty_is_valid=eiv))))
-                paths.append([[_cl(x) for x in p], int(eiv), v if res == "ok" else 2])
+            # shortest paths (0 / 1 / 2 cells) of the larger mazes with BOTH flags (class H); the small scope has
+            # every 1- and 2-cell sequence, flags alternating
+            both = len(p) == 0 or i % 16 == 0 or (not small and len(p) <= 2)
+            for eiv in [False, True] if both else [bool(i % 2)]:
+                ask(p, eiv, i, i // 2)
         # the empty path again: default call (no flag), then with / without the flag in the other order
-        res, v = mz.outcome(lambda: int(bool(m.is_valid_path(np.zeros((0, 2), dtype=int)))))
-        paths.append([[], 0, v if res == "ok" else 2])
+        ask([], None, 1, 0)
         for eiv in (True, False):
-            res, v = mz.outcome(lambda: int(bool(m.is_valid_path(np.zeros((0, 2), dtype=int), empty_is_valid=eiv))))
-            paths.append([[], int(eiv), v if res == "ok" else 2])
+            ask([], eiv, 2 + eiv, 1)
         rec["paths"] = paths
 
     def v_adj():
         adj, rt = [], []
         flags = FLAGS + [(None, None)]  # None = the default flags (shuffled both ways)
-        for d0, d1 in flags if parity % 2 == 0 else flags[::-1]:
+        for n_, (d0, d1) in enumerate(flags if parity % 2 == 0 else flags[::-1]):
             np.random.seed(int(rng.integers(0, 2**31)))
-            a = call("as_adj_list", (lambda: m.as_adj_list()) if d0 is None else (lambda: m.as_adj_list(shuffle_d0=d0, shuffle_d1=d1)))
+            fn = (lambda: m.as_adj_list()) if d0 is None else [lambda: m.as_adj_list(shuffle_d0=d0, shuffle_d1=d1), lambda: m.as_adj_list(d0, d1), lambda: m.as_adj_list(d0, shuffle_d1=d1)][(parity + n_) % 3]
+            a = call("as_adj_list", fn)
             lst = call("as_adj_list", lambda: _arr(a, 3, (2, 2)), []) if a is not None else []
             adj.append([int(d0 is None or d0), int(d0 is None or d1), lst])
             if r == c and lst:
-                res, raw2 = mz.outcome(lambda: take(lambda: mz.LatticeMaze.from_adj_list(a).connection_list, lambda x: _arr(x, 3)))
+                # the list handed to from_adj_list is the caller's own copy (dtype / layout rotate), overwritten with
+                # zeros after the call and BEFORE the rebuilt connection structure is read
+                own = mz.outcome(lambda: [lambda x: x.copy(), lambda x: x.astype(np.int64), lambda x: np.asfortranarray(x), lambda x: np.ascontiguousarray(x.astype(np.int16).transpose(2, 1, 0)).transpose(2, 1, 0), lambda x: x][(parity + n_) % 5](a))[1]
+
+                def rebuild():
+                    snap = own.copy()
+                    m2 = mz.LatticeMaze.from_adj_list(own)
+                    if not _same(own, snap) and "from_adj_list" not in argmod:
+                        argmod.append("from_adj_list")
+                    if own is not a:
+                        own[...] = 0
+                    return take(lambda: m2.connection_list, lambda x: _arr(x, 3))
+
+                res, raw2 = mz.outcome(rebuild) if own is not None else ("raise", None)
                 rt.append([adj[-1][0], adj[-1][1], 1, raw2] if res == "ok" else [adj[-1][0], adj[-1][1], 0, []])
             if scribble and a is not None:
                 _scribble(a)
@@ -334,12 +522,22 @@ def observe_maze(conn, rng, small, job, parity=0, m=None, order=None, scribble=F
         edges = _lattice_edges(r, c)
         batch = [(a, b) for a, b in edges] + [(b, a) for a, b in edges]
         isconn = []
+        own_conn = m.connection_list  # the maze's own array (its dtype / layout is part of the representation)
+
+        def ask(bt, mode):
+            arr = _own_edges(bt, mode)
+            res = call("is_connection", lambda: take(lambda x: is_connection(x, own_conn), lambda x: _vec_out(x, len(bt)), [arr], "is_connection"), [2] * len(bt))
+            return [[_cl(a), _cl(b), int(x)] for (a, b), x in zip(bt, res)]
+
+        # the empty batch (a maze without lattice edges, or nothing asked): an empty answer
+        res0 = mz.outcome(lambda: take(lambda x: is_connection(x, own_conn), lambda x: int(np.asarray(x).size), [_own_edges([], parity)], "is_connection"))
+        rec["isconn0"] = [res0[1] if res0[0] == "ok" else -1]
         if batch:
             order_ = rng.permutation(len(batch))
             batch = [batch[int(i)] for i in order_]
-            arr = np.array(batch, dtype=np.int8 if parity % 2 else np.int64)
-            res = call("is_connection", lambda: take(lambda: is_connection(arr, conn), lambda x: _vec_out(x, len(batch))), [2] * len(batch))
-            isconn += [[_cl(a), _cl(b), int(x)] for (a, b), x in zip(batch, res)]
+            batch += batch[: 1 + len(batch) // 8]  # some edges twice in one batch, same orientation
+            isconn += ask(batch, parity)
+            isconn += ask(batch[:1], parity + 1)  # a batch of one
             if r == c:  # the library's own edge generator as input, as given and with swapped endpoints
                 lca = call("lattice_connection_array", lambda: lattice_connection_array(r))
                 lst = call("lattice_connection_array", lambda: np.asarray(_arr(lca, 3, (2, 2)))) if lca is not None else None
@@ -347,22 +545,47 @@ def observe_maze(conn, rng, small, job, parity=0, m=None, order=None, scribble=F
                     _scribble(lca)
                 if lst is not None and len(lst):
                     for arr2 in (lst, lst[:, ::-1, :]):
-                        res = call("is_connection", lambda: take(lambda: is_connection(arr2.astype(np.int8), conn), lambda x: _vec_out(x, len(arr2))), [2] * len(arr2))
+                        res = call("is_connection", lambda: take(lambda x: is_connection(x, own_conn), lambda x: _vec_out(x, len(arr2)), [arr2.astype(np.int8)], "is_connection"), [2] * len(arr2))
                         isconn += [[_cl(e[0]), _cl(e[1]), int(x)] for e, x in zip(arr2.tolist(), res)]
         rec["isconn"] = isconn
 
     def v_sols():
-        sols = []
         cand = _solutions(rng, conn, small)
         if light and len(cand) > 12:
             cand = cand[:: len(cand) // 12]
-        for i, p in enumerate(cand + [list(p) for p in extra_sols]):
+        simple = [(p, "sols") for p in cand + [list(p) for p in extra_sols]]
+        walks = _nonsimple(rng, conn, small)
+        if light:
+            walks = walks[:4]
+        for i, (p, field) in enumerate(simple + [(p, "sols_m") for p in walks]):
             def forks():
-                # the three queries on ONE SolvedMaze object, in an order that depends on the solution
-                sm = mz.SolvedMaze(connection_list=conn, solution=np.array(p))
+                # the queries on ONE SolvedMaze object, in an order that depends on the solution.  The object is built
+                # directly (solution = the caller's own array / list, overwritten right after construction) or through
+                # the factories; the connection structure is the maze's own array.
+                S, T = mz.SolvedMaze, mz.TargetedLatticeMaze
+                how = (i + parity) % 5
+                if how in (0, 1):
+                    sol = _own_cells(p, parity + i)
+                    snap = sol.copy()
+                    sm = S(connection_list=m.connection_list, solution=sol)
+                    if not _same(sol, snap) and "SolvedMaze" not in argmod:
+                        argmod.append("SolvedMaze")
+                    sol[...] = 0
+                elif how == 2:
+                    sol = [list(x) for x in p]
+                    sm = S(connection_list=m.connection_list, solution=sol)
+                    for x in sol:
+                        x[:] = [0, 0]
+                elif how == 3:
+                    sm = S.from_lattice_maze(lattice_maze=m, solution=[tuple(x) for x in p])
+                else:
+                    sol = _own_cells(p, parity + i)
+                    sm = S.from_targeted_lattice_maze(T(connection_list=m.connection_list, start_pos=np.array(p[0]), end_pos=np.array(p[-1])), solution=sol)
+                    sol[...] = 0
                 q = dict(
-                    f=lambda: sm.get_solution_forking_points(),
-                    e=lambda: sm.get_solution_forking_points(always_include_endpoints=True),
+                    # the default flag: left out / by keyword / positional (class C: False is a meaningful value)
+                    f=[lambda: sm.get_solution_forking_points(), lambda: sm.get_solution_forking_points(always_include_endpoints=False), lambda: sm.get_solution_forking_points(False)][(i // 2 + parity) % 3],
+                    e=[lambda: sm.get_solution_forking_points(always_include_endpoints=True), lambda: sm.get_solution_forking_points(True)][(i // 3) % 2],
                     g=lambda: sm.get_solution_path_following_points(),
                 )
                 got = {}
@@ -375,20 +598,26 @@ def observe_maze(conn, rng, small, job, parity=0, m=None, order=None, scribble=F
 
             v = call("solution_forking_points", forks)
             if v is not None:
-                sols.append(v)
-        rec["sols"] = sols
+                rec[field].append(v)
 
     fns = dict(nodes=v_nodes, deg=v_deg, nb=v_nb, nc=v_nc, comp=v_comp, paths=v_paths, adj=v_adj, isconn=v_isconn, sols=v_sols)
     for name in order or VIEWS:
         fns[name]()
+        # the maze still has the logged connection structure (a query that edits the maze)
+        now = mz.outcome(lambda: np.array(m.connection_list))[1]
+        if (now is None or now.shape != conn0.shape or not np.array_equal(now, conn0)) and "maze:" + name not in argmod:
+            argmod.append("maze:" + name)
     return rec
 
 
-def observe_lattice(n, seed, scribble=False, job=None):
+def observe_lattice(n, seed, scribble=False, job=None, nrep=0):
+    """nrep: the size as int / numpy int64 / numpy int32 (class G); the pair arrays handed to manhattan_distance are the
+    caller's own (dtype / layout rotate), compared with a snapshot and overwritten before the result is read (class E)"""
     from maze_dataset.utils import lattice_connection_array, lattice_max_degrees, manhattan_distance
 
     rng = np.random.default_rng([seed, 3, n])
-    err = []
+    err, argmod = [], []
+    n_arg = [int, np.int64, np.int32][nrep % 3](n)
 
     def call(view, fn, default):
         res, v = mz.outcome(fn)
@@ -398,22 +627,28 @@ def observe_lattice(n, seed, scribble=False, job=None):
             return default
         return v
 
-    def take(fn, conv):
-        raw = fn()
+    def take(fn, conv, args=(), view=""):
+        snap = [a.copy() for a in args]
+        raw = fn(*args)
+        for a, s0 in zip(args, snap):
+            if not _same(a, s0) and view not in argmod:
+                argmod.append(view)
+            if a.size and a.flags.writeable:
+                a[...] = OVERWRITE
         out = conv(raw)
         if scribble:
             _scribble(raw)
         return out
 
-    lca = call("lattice_connection_array", lambda: take(lambda: lattice_connection_array(n), lambda x: _arr(x, 3, (2, 2))), [])
-    md = call("manhattan_distance", lambda: take(lambda: manhattan_distance(np.array(lca, dtype=np.int8)), lambda x: _vec_out(x, len(lca))), []) if lca else []
+    lca = call("lattice_connection_array", lambda: take(lambda: lattice_connection_array(n_arg), lambda x: _arr(x, 3, (2, 2))), [])
+    md = call("manhattan_distance", lambda: take(manhattan_distance, lambda x: _vec_out(x, len(lca)), [_own_edges(lca, nrep + 1)], "manhattan_distance"), []) if lca else []
     cs = mz.cells(n, n)
     pairs = [(a, b) for a in cs for b in cs] if n <= 3 else [(cs[int(rng.integers(len(cs)))], cs[int(rng.integers(len(cs)))]) for _ in range(60)] + [((0, 0), (n - 1, n - 1)), ((n - 1, 0), (0, n - 1))]
-    md2 = [[list(a), list(b), call("manhattan_distance", lambda: int(manhattan_distance(np.array([a, b], dtype=np.int8 if i % 2 else np.int64))), -1)] for i, (a, b) in enumerate(pairs)]
-    batch = call("manhattan_distance", lambda: take(lambda: manhattan_distance(np.array(pairs)), lambda x: _vec_out(x, len(pairs))), [-1] * len(pairs))
+    md2 = [[list(a), list(b), call("manhattan_distance", lambda: take(manhattan_distance, int, [_own_cells([a, b], nrep + i)], "manhattan_distance"), -1)] for i, (a, b) in enumerate(pairs)]
+    batch = call("manhattan_distance", lambda: take(manhattan_distance, lambda x: _vec_out(x, len(pairs)), [_own_edges(pairs, nrep)], "manhattan_distance"), [-1] * len(pairs))
     md2 += [[list(a), list(b), int(x)] for (a, b), x in zip(pairs, batch)]
-    maxdeg = call("lattice_max_degrees", lambda: take(lambda: lattice_max_degrees(n), lambda x: _arr(x, 2)), [])
-    return dict(kind="lattice", job=job or ["lat", n, seed], n=n, lca=lca, md=md, md2=md2, maxdeg=maxdeg, err=err)
+    maxdeg = call("lattice_max_degrees", lambda: take(lambda: lattice_max_degrees(n_arg), lambda x: _arr(x, 2)), [])
+    return dict(kind="lattice", job=job or ["lat", n, seed], n=n, lca=lca, md=md, md2=md2, maxdeg=maxdeg, err=err, argmod=argmod)
 
 
 # ---- histories (class A): one process, same objects queried repeatedly, shapes in decreasing / scrambled order
@@ -447,11 +682,18 @@ def observe_hist(seed, k):
             conn = mz.rand_conn(rng, r, c, float(rng.choice([0.35, 0.5, 0.65, 0.8])))
         first.setdefault((r, c), conn)
         small = r * c <= 9
-        m = mz.outcome(lambda: mz.LatticeMaze(connection_list=conn))[1]
+        prov = PROVENANCE[(3 * k + step) % len(PROVENANCE)]
+        m = mz.outcome(lambda: _build(conn, prov))[1]
+        if m is not None and prov != "ctor":  # the object's own connection structure is the reference
+            got = mz.outcome(lambda: np.array(m.connection_list))[1]
+            if got is not None and got.shape == conn.shape and got.dtype.kind == "b":
+                conn = got
+            else:
+                m = None
         orders = [VIEWS, VIEWS[::-1], [VIEWS[int(i)] for i in rng.permutation(len(VIEWS))]]
         for ps, order in enumerate(orders):
             # passes 1 and 2 overwrite everything they were given; pass 3 is a plain re-query after "using" the maze
-            rec = observe_maze(conn, rng, small, job, parity=ps + step, m=m, order=order, scribble=ps < 2, light=True)
+            rec = observe_maze(conn, rng, small, job, parity=ps + step, m=m, order=order, scribble=ps < 2, light=True, prov=prov if m is not None else None)
             rec["step"] = [step, ps]
             out.append(rec)
             if ps == 1 and m is not None:
@@ -461,7 +703,7 @@ def observe_hist(seed, k):
         rec["step"] = [step, 3]
         out.append(rec)
     for step, n in enumerate(HIST_LATTICE[k % len(HIST_LATTICE)]):
-        rec = observe_lattice(n, seed, scribble=True, job=job)
+        rec = observe_lattice(n, seed, scribble=True, job=job, nrep=k + step)
         rec["step"] = [step, 9]
         out.append(rec)
     return out
@@ -523,15 +765,15 @@ def observe(job):
         return observe_maze(mz.conn_from_int(r, c, n), np.random.default_rng([seed, 1, r, c, n]), True, list(job), n)
     if job[0] == "rand":
         _, seed, k, maxn = job
-        rng, r, c, kind, conn = _random_case(seed, k, maxn)
-        rec = observe_maze(conn, rng, r * c <= 9, list(job), k)
+        rng, r, c, kind, conn, gen = _random_case(seed, k, maxn)
+        rec = observe_maze(conn, rng, r * c <= 9, list(job), k, m=gen, prov="generated" if gen is not None else None)
         rec["gen"] = kind
         return rec
     if job[0] == "hist":
         return observe_hist(job[1], job[2])
     if job[0] == "big":
         return observe_big(job[1], job[2])
-    return observe_lattice(job[1], job[2])
+    return observe_lattice(job[1], job[2], nrep=job[1])
 
 
 # ------------------------------------------------------------------ canaries (hand-made, independent of the code under test)
